@@ -975,6 +975,9 @@ class ModelMixin2:
             return [(self.exc('IndexError', st, node, 'tuple index out of range'), st)]
         if isinstance(c, Ref) and c.kind == 'list':
             le: ListE = st.get(c.sym)
+            if isinstance(i, Ref) and i.kind == 'idx' and i.sym in st.heap and st.get(i.sym).kind == 'foreign' and 'len(' in (st.get(i.sym).why or ''):
+                # xs[len(xs) - 1]: which element that is depends on a relation between the number and the list that is not tracked
+                raise AnalysisError('list subscript computed by arithmetic on len(): outside the abstraction')
             if isinstance(i, Const) and i.v == -1 and le.kind != 'lit' and c.sym in (st.mon.get('lastapp') or {}):
                 return [(st.mon['lastapp'][c.sym], st)]
             if isinstance(i, Const) and isinstance(i.v, int):
